@@ -11,6 +11,8 @@ C = {
          "TLA+ Script VM + Verify.tla judged by TLC on traces of the real satisfier (Trace_Sat); MC_SatSet lemma"),
  "C02": ("sat-pipeline", "model_checking", "every 'no satisfaction' answer over the same domain is confronted with the complete SatSet of MsSpec.tla (itself cross-checked against brute-force VM search by MC_SatSet)", "5/C02",
          "TLA+ SatSet table vs. real satisfier answers (Trace_Sat); MC_SatSet completeness lemma"),
+ "C08": ("compile-pipeline", "model_checking", "every successful compilation (15 targets) of every enumerated concrete policy is judged semantically: truth table of the output's SatSet-spendability over all asset worlds equals the policy's, output is B / signed / non-malleable by the specification's tables, obeys the target context's sanity rules and re-parses", "5/C08",
+         "TLA+ SatSet/Spendable truth tables + SpecType + Validation predicates on compiler outputs (Trace_Compile)"),
  "C09": ("sat-pipeline", "model_checking", "every static figure (script size, witness count/size, scriptSig size, max weight, op count, plan sizes) is compared with the value measured on each produced satisfaction by the VM and the size model; limits clause checked on VM depth/op count", "5/C09",
          "TLA+ VM measurement + size model vs. library figures (Trace_Sat)"),
  "C03": ("nonmall-pipeline", "model_checking", "every non-malleable satisfaction the library returns for a sane descriptor is attacked by exhaustive adversarial witness search (all stacks up to |w|+1 over the third-party alphabet) executed in the TLA+ VM under standardness rules; any accepted alternative is a violation; bounds in evidence", "5/C03",
@@ -25,6 +27,8 @@ C = {
          "TLA+ policy truth function vs. SatSet on the library's lift output (Trace_Ast)"),
  "C10": ("ast-pipeline", "model_checking", "parser-built AST = written AST, print->parse equality and print fixpoint for every enumerated miniscript in 4 contexts (descriptor/policy/key/checksum parts: not yet)", "5/C10",
          "structural AST comparison in TLA+ of parse/print round trips (Trace_Ast)"),
+ "C11": ("crash-pipeline", "exploration", "panic / hang observation on exhaustively enumerated small input spaces (strings, opcode sequences) and parametric extreme families for every parser, the decoder, the interpreter, the PSBT finalizer/updater and the planner; the expression parser's accept/reject verdict is compared with the explicit state machine ExprParser.tla (model-checked by MC_Expr); partial by nature (no byte-level fuzzing, no allocation tracking)", "5/C11",
+         "enumerated-input conformance under catch_unwind judged by TLC (Trace_Crash) + ExprParser.tla model (MC_Expr)"),
  "C12": ("ast-pipeline", "model_checking", "each validation switch rejects exactly the ASTs with the L1 defect (Validation.tla), parameter sets / parsers accept exactly ObeysContext / ObeysSane, limits exact w.r.t. published figures, lattice monotone, descriptor parsers and constructors accept only context-obeying scripts; over all enumerated typed and untyped ASTs in 4 contexts", "5/C12",
          "TLA+ Validation.tla defect predicates vs. library validate()/parsers/constructors (Trace_Ast)"),
  "C13": ("interp-pipeline", "model_checking", "every library satisfaction and every single-element mutation of it, under every lock/sequence environment, is run through the real interpreter with real signature checks and re-executed by the TLA+ VM under consensus rules: accept => VM accepts, constraint bag = VM executed-path log, constraints satisfy the lifted policy; completeness on sane descriptors", "5/C13",
@@ -43,6 +47,8 @@ C = {
          "structural identity of abstract ASTs (TLA+ Gen_Pairs) vs. library Eq/Ord/Hash matrix (Trace_Eq)"),
 }
 ENG = {
+ "compile-pipeline": ("bin/check (run_compile)", "TLC Gen_Compile -> msverif compile -> TLC Trace_Compile"),
+ "crash-pipeline": ("bin/check (run_crash)", "TLC MC_Expr + Gen_Crash -> msverif crash -> TLC Trace_Crash"),
  "desc-pipeline": ("bin/check (run_desc)", "TLC Gen_Desc -> msverif desc -> TLC Trace_Desc"),
  "translate-pipeline": ("bin/check (run_translate)", "TLC Gen_Ast -> msverif translate -> TLC Trace_Translate"),
  "tap-pipeline": ("bin/check (run_tap)", "TLC Gen_Tap -> msverif tap -> TLC Trace_Tap"),
